@@ -23,10 +23,11 @@ Shape of the model (DESIGN §5 C26/C27): a *set-once rule engine*.
     `_handle_unresolved_objects` and stop;
   * `validate` = the bounds check at the end of `resolve_object_constraints`.
 
-The definitions here are the solver AFTER the two `fix:` commits recorded in props/C26.findings.json
-(no early "everything resolved" exit; `partial_real_position` is verified also when both bounds are already
-known; running out of `max_iter` flags every object).  The behaviour of the pinned tree is kept in
-`namespace AsFound` (early exit + skip) for the machine-checked refutation witnesses.
+The definitions here are the solver AFTER the three `fix:` commits recorded in props/C26.findings.json and
+props/C27.findings.json (no early "everything resolved" exit and running out of `max_iter` flags every object;
+`partial_real_position` is verified also when both bounds are already known; an extension to the volume
+boundary is postponed while that boundary is unknown).  The behaviour of the pinned tree is kept in
+`namespace AsFound` (early exit, skip, raise) for the machine-checked refutation witnesses.
 
 Simplifications (each is covered by K, which compares complete outcomes):
   * the grid is an input (three edge lists, `is_uniform`, `uniform_spacing`); `_resolve_grid_from_volume` is not
@@ -346,8 +347,9 @@ def idF : List Int → Option Int
   | [x] => some x
   | _ => none
 
-/-- the atoms of one constraint, in the order the code evaluates them -/
-def Con.atoms (g : Grid α) (vol : Nat) : Con α → List Atom
+/-- the atoms of one constraint, in the order the code evaluates them.  `strictVol`: an extension to the
+volume boundary raises while that boundary is unknown (pinned tree) instead of being postponed -/
+def Con.atoms (g : Grid α) (vol : Nat) (strictVol : Bool) : Con α → List Atom
   | .gridc o es =>
     if !g.uniform then [raiseAtom o 0]
     else es.map fun (ax, hi, c) => ⟨[], false, ⟨o, ax, sideKind hi⟩, fun _ => some c⟩
@@ -365,7 +367,7 @@ def Con.atoms (g : Grid α) (vol : Nat) : Con α → List Atom
     offsetGuard g o ax goff ++
       (match t with
        | some t => [⟨[⟨t, ax, .lo⟩, ⟨t, ax, .hi⟩], false, ⟨o, ax, sideKind hi⟩, extF g ax opos off goff⟩]
-       | none => [⟨[⟨vol, ax, sideKind hi⟩], true, ⟨o, ax, sideKind hi⟩, idF⟩])
+       | none => [⟨[⟨vol, ax, sideKind hi⟩], strictVol, ⟨o, ax, sideKind hi⟩, idF⟩])
 
 def axes3 : List Nat := [0, 1, 2]
 
@@ -411,8 +413,8 @@ def volId (sys : Sys α) : Nat :=
 
 def posGroupsAll (sys : Sys α) : List Group := sys.objs.flatMap (·.posGroups sys.grid)
 
-def conGroups (sys : Sys α) : List Group :=
-  sys.cons.map fun c => ⟨c.owner, true, c.atoms sys.grid (volId sys)⟩
+def conGroups (sys : Sys α) (strictVol : Bool := false) : List Group :=
+  sys.cons.map fun c => ⟨c.owner, true, c.atoms sys.grid (volId sys) strictVol⟩
 
 def bookGroups (sys : Sys α) : List Group :=
   sys.objs.flatMap (fun o => sliceGroups o.id) ++ sys.objs.flatMap (fun o => shapeGroups o.id)
@@ -504,12 +506,32 @@ def extends_ (sys : Sys α) (σ : St) (v : Var) : Bool :=
   | .lo => v.ax < 3 && isObj sys v.o && (σ v).isNone && extensible sys σ v.o v.ax false
   | .hi => v.ax < 3 && isObj sys v.o && (σ v).isNone && extensible sys σ v.o v.ax true
 
-def extend (sys : Sys α) (σ : St) : St := fun v =>
+/-- the state after `_extend_to_inf_if_possible`, pointwise -/
+def extendPt (sys : Sys α) (σ : St) : St := fun v =>
   if extends_ sys σ v then
     (match v.k with
      | .lo => some 0
      | _ => σ ⟨volId sys, v.ax, .size⟩)
   else σ v
+
+/-- every slot of every object -/
+def objVars (sys : Sys α) : List Var :=
+  sys.objs.flatMap fun o => axes3.flatMap fun ax => [⟨o.id, ax, .lo⟩, ⟨o.id, ax, .hi⟩, ⟨o.id, ax, .size⟩]
+
+/-- the values `extendPt` gives to the object slots, as a table (computed once per extension round) -/
+def extendTbl (sys : Sys α) (σ : St) : List (Var × Option Int) :=
+  (objVars sys).map fun v => (v, extendPt sys σ v)
+
+/-- a state given by a table over some slots and a fallback state (`noinline`: the table must be an
+evaluated argument of the closure, not a computation inside it) -/
+@[noinline] def stOfTbl (tbl : List (Var × Option Int)) (σ : St) : St := fun v =>
+  match tbl.lookup v with
+  | some r => r
+  | none => σ v
+
+/-- `extendPt`, tabulated so that states do not become towers of closures; the table is an evaluated
+value captured by the closure (`extend = extendPt` is proved in FdtdxLemmas/C26Loop.lean) -/
+def extend (sys : Sys α) (σ : St) : St := stOfTbl (extendTbl sys σ) σ
 
 /-- `resolved_something` of `_extend_to_inf_if_possible` -/
 def extChanged (sys : Sys α) (σ : St) : Bool :=
@@ -532,7 +554,7 @@ def loop (sys : Sys α) (gs : List Group) : Nat → St → List Nat → Option (
     | none => none
     | some s =>
       if s.chg then loop sys gs n s.σ s.errs
-      else if extChanged sys s.σ then loop sys gs n (extend sys s.σ) s.errs
+      else if extChanged sys s.σ then loop sys gs n (stOfTbl (extendTbl sys s.σ) s.σ) s.errs   -- = extend sys s.σ
       else some (s.σ, unresolved sys s.σ ++ s.errs)
 
 inductive Outcome
@@ -597,11 +619,11 @@ def loop (sys : Sys α) : Nat → St → List Nat → Option (St × List Nat)
   | n + 1, σ, e =>
     if allResolved sys σ then some (σ, e)
     else
-      match runGroups (posGroupsAll sys σ ++ bookGroups sys ++ conGroups sys) ⟨σ, e, false⟩ with
+      match runGroups (posGroupsAll sys σ ++ bookGroups sys ++ conGroups sys true) ⟨σ, e, false⟩ with
       | none => none
       | some s =>
         if s.chg then loop sys n s.σ s.errs
-        else if extChanged sys s.σ then loop sys n (extend sys s.σ) s.errs
+        else if extChanged sys s.σ then loop sys n (stOfTbl (extendTbl sys s.σ) s.σ) s.errs
         else some (s.σ, unresolved sys s.σ ++ s.errs)
 
 def solve (sys : Sys α) (maxIter : Nat) : Outcome :=
